@@ -43,7 +43,7 @@ def check(scratch, a, t0):
     qs = Q.QueryStats()
     findings = []
     info = {"functions": {}, "paths": {}}
-    timeout_ms = 20000 if a.tier == "quick" else 120000
+    timeout_ms = 10000 if a.tier == "quick" else 120000
     nat = N.NativeBytecode(scratch)
     natc = N.NativeCompiler(scratch)
     for release in (False, True):
@@ -56,10 +56,18 @@ def check(scratch, a, t0):
         cases = [(op, (k1, k2)) for op in OPS for k1 in K.KINDS for k2 in K.KINDS] + [("negate", (k,)) for k in K.KINDS]
         pf = []
         for op, kinds in cases:
+            # Number level: `&Number op &Number` / Number::negate directly
             fs = fk.summarize(op, list(kinds))
             rs = ker.summarize_instr(op, list(kinds))
             npaths += len(fs.paths) * len(rs.paths)
             pf += compare(op, kinds, fs, rs, profile, qs, timeout_ms)
+            # Expr level: `impl CompileTimeEvaluate for Expr` on literal leaves; an `int` literal is any integer text up to
+            # 128 bits (it widens to bigint when it does not fit 32 bits), so each Int leaf is split into narrow / wide
+            expr_level = ("Int" in kinds) if a.tier == "thorough" else (not release and all(k == "Int" for k in kinds))
+            if expr_level:
+                n, fnd = compare_expr(fk, ker, op, kinds, profile, qs, timeout_ms)
+                npaths += n
+                pf += fnd
         pf += widening(fk, profile, qs, timeout_ms)
         info["paths"][profile] = npaths
         log("  [%s] %d folder/run-time path pairs, %d obligations so far, %d candidate findings" % (profile, npaths, qs.obligations, len(pf)))
@@ -116,6 +124,92 @@ def compare(op, kinds, fs, rs, profile, qs, timeout_ms):
     return out
 
 
+def compare_expr(fk, ker, op, kinds, profile, qs, timeout_ms):
+    import itertools
+    out = []
+    npairs = 0
+    names = ["a", "b"]
+    int_pos = [i for i, k in enumerate(kinds) if k == "Int"]
+    for wide in itertools.product([False, True], repeat=len(int_pos)):
+        wmap = dict(zip(int_pos, wide))
+        if not any(wide):
+            pass   # all-narrow literals still go through the Expr-level code (widening must NOT trigger)
+        leaves, link, rt_kinds, finputs, fkinds = [], [], [], [], []
+        for i, k in enumerate(kinds):
+            if k == "Int" and wmap[i]:
+                # literal text = an integer that does NOT fit 32 bits; the run time sees a bigint with the same value
+                A = z3.BitVec(names[i], 128)
+                leaves.append(("Int", sym.Sc("i128", A), 128))
+                finputs.append(sym.Sc("i128", A))
+                fkinds.append("BigInt")
+                rt_kinds.append("BigInt")
+                link.append(z3.Not(z3.And(A >= -(1 << 31), A <= (1 << 31) - 1)))
+            elif k == "Int":
+                # literal text = the decimal text of a 32-bit value (written as a 128-bit-domain literal: sign extension)
+                a32 = z3.BitVec(names[i], 32)
+                leaves.append(("Int", sym.Sc("i128", z3.SignExt(96, a32)), 128))
+                finputs.append(sym.Sc("i32", a32))
+                fkinds.append("Int")
+                rt_kinds.append("Int")
+            else:
+                p = K.sym_payload(k, names[i])
+                leaves.append((k, p, None))
+                finputs.append(p)
+                fkinds.append(k)
+                rt_kinds.append(k)
+        fpaths = F.summarize_expr(fk, op, leaves)
+        rs = ker.summarize_instr(op, rt_kinds)
+        pseudo = K.Summary(op, tuple(fkinds), finputs, [], "expr", 0)
+        # findings are keyed by the run-time kinds the operands have (a wide int literal IS a bigint operand)
+        arm = ",".join(rt_kinds)
+        lit = ",".join(("IntLit" + ("(wide)" if wmap[i] else "")) if k == "Int" else k for i, k in enumerate(kinds))
+        lab = "foldexpr:%s[%s]/%s" % (op, lit, profile)
+        linkc = z3.And(*link) if link else z3.BoolVal(True)
+
+        def add(cls, vals, detail):
+            rtw = [(rt_kinds[i], vals[i]) for i in range(len(kinds))]
+            f = Q.Finding("C06", op, arm, cls, profile, rtw, detail + " [Expr-level folding of literals %s]" % lit)
+            f.native_op = "I:" + op
+            f.fold_witness = [(("IntLit" if wmap[i] else "Int") if k == "Int" else k, vals[i]) for i, k in enumerate(kinds)]
+            out.append(f)
+
+        for fi, fp in enumerate(fpaths):
+            for ri, rp in enumerate(rs.paths):
+                npairs += 1
+                both = z3.And(fp.cond(), rp.cond(), linkc)
+                pl = "%s:f%d(%s)xr%d(%s)" % (lab, fi, fp.outcome, ri, rp.outcome)
+                if fp.outcome == "defer":
+                    continue
+                if fp.outcome == "panic":
+                    r, vals = Q.decide(both, pseudo, qs, timeout_ms, V.seed(), pl + ":folder-panics")
+                    if r == "sat":
+                        add("folder-panics", vals, "the constant folder itself panics: " + fp.msg)
+                    continue
+                if fp.outcome == "ok":
+                    okparse, val = F.literal_value(fp.rkind, fp.rval)
+                    if rp.outcome != "ok":
+                        r, vals = Q.decide(both, pseudo, qs, timeout_ms, V.seed(), pl + ":accepts=>succeeds")
+                        if r == "sat":
+                            add("compiler-accepts-runtime-fails", vals, "the folder produces a literal although run-time evaluation fails (%s)" % rp.outcome)
+                        continue
+                    r, vals = Q.decide(z3.And(both, z3.Not(okparse)), pseudo, qs, timeout_ms, V.seed(), pl + ":literal-loads")
+                    if r == "sat":
+                        add("folded-literal-unloadable", vals, "the folded %s literal text is not accepted by make_%s at run time" % (fp.rkind, fp.rkind.lower()))
+                    if fp.rkind != rp.rkind:
+                        r, vals = Q.decide(z3.And(both, okparse), pseudo, qs, timeout_ms, V.seed(), pl + ":kind")
+                        if r == "sat":
+                            add("kind-differs", vals, "folded kind %s, run-time kind %s" % (fp.rkind, rp.rkind))
+                        continue
+                    r, vals = Q.decide(z3.And(both, okparse, val != rp.rval.e), pseudo, qs, timeout_ms, V.seed(), pl + ":value")
+                    if r == "sat":
+                        add("value-differs", vals, "folded value differs from the run-time value")
+                elif rp.outcome == "ok":
+                    r, vals = Q.decide(both, pseudo, qs, timeout_ms, V.seed(), pl + ":rejects=>fails")
+                    if r == "sat":
+                        add("compiler-rejects-runtime-succeeds", vals, "the folder rejects the expression although run-time evaluation yields a value")
+    return npairs, out
+
+
 def widening(fk, profile, qs, timeout_ms):
     """`impl CompileTimeEvaluate for Number`: an int literal that does not fit 32 bits becomes a bigint, value preserved."""
     out = []
@@ -166,7 +260,8 @@ def confirm(findings, nat, natc, release):
     if not todo:
         return
     rt = nat.eval([("w%d" % i, f.native_op, f.witness) for i, f in enumerate(todo)], release)
-    lines = ["%d %s %s" % (i, f.op, " ".join("%s %x" % (k, v) for k, v in f.witness)) for i, f in enumerate(todo)]
+    lines = ["%d %s %s" % (i, ("expr:" + f.op) if getattr(f, "fold_witness", None) else f.op,
+                           " ".join("%s %x" % (k, v) for k, v in (getattr(f, "fold_witness", None) or f.witness))) for i, f in enumerate(todo)]
     vec = os.path.join(natc.s.dir, "fold_vectors.txt")
     with open(vec, "w") as fh:
         fh.write("\n".join(lines) + "\n")
@@ -242,6 +337,7 @@ def report(a, findings, qs, info, t0):
                          "decimal codec contract of std (decmodels.py): to_string/parse round trip, integer range checks, correctly rounded float parsing",
                          "`make_<kind>` loads a folded literal with <kind>::from_str (make_byte: decimal branch)"],
         "functions_encoded": info["functions"], "path_pairs": info["paths"],
+        "expr_level": "quick: every operator on (int literal, int literal) in the dev profile, each literal split narrow/wide; thorough: every kind pair containing an int literal, both profiles",
         "bounds": "depth-1 expressions over two literals + unary minus + literal widening, all literal values of i32/i128/f64/u8 (int literals up to 128 bits); deeper trees are covered only through compositionality of try_constexpr_eval (children are folded first, a folded step is again a Number literal)",
         "solver_time_s": round(qs.solver_s, 2),
         "samples": qs.samples[:8] + [f.as_dict() for f in (new + listed)[:6]],
@@ -258,6 +354,8 @@ def replay(scratch, path):
     w = [(k, int(v, 16) if isinstance(v, str) else v) for k, v in d["witness"]]
     f = Q.Finding("C06", d["fn"], d["arm"], d["class"], d["profile"], w, d["detail"])
     f.native_op = d.get("native_op")
+    if d.get("fold_witness"):
+        f.fold_witness = [(k, int(v, 16)) for k, v in d["fold_witness"]]
     confirm([f], N.NativeBytecode(scratch), N.NativeCompiler(scratch), d["profile"] == "release")
     print("replay:", json.dumps(f.native))
     if f.confirmed:
